@@ -30,7 +30,7 @@ pub fn make_monitor(prop: &str, n: usize, cap: usize, profile: Profile) -> Box<d
 /// classic put-first overwrite re-add static-reads churn cross full mixed labels
 fn profile_weights(prop: &str) -> [u32; 10] {
     match prop {
-        "C01" => [10, 15, 8, 15, 15, 5, 12, 4, 14, 2],
+        "C01" => [10, 15, 8, 13, 12, 5, 18, 4, 14, 2],
         "C02" => [8, 18, 15, 15, 6, 10, 8, 10, 0, 2], // primitives only: merge/clone/save+load/scripts are C11/C10/C08/C14's
         "C03" => [8, 6, 14, 10, 6, 4, 16, 10, 0, 26],
         "C04" => [0, 5, 5, 80, 5, 0, 5, 0, 0, 0],
@@ -115,7 +115,8 @@ fn run_case(
             } else {
                 let mut g = Gen::new(case.seed, case.profile, case.n, case.cap);
                 configure_gen(prop, &mut g);
-                runner.run(case.n, case.cap, case.seed, Source::Gen(&mut g, case.len), mon.as_mut(), sink)
+                let len = case.len + g.prelude.len();
+                runner.run(case.n, case.cap, case.seed, Source::Gen(&mut g, len), mon.as_mut(), sink)
             }
         }
     }
@@ -142,6 +143,10 @@ fn configure_gen(prop: &str, g: &mut Gen) {
             if g.rng.chance(1, 2) {
                 g.add_noncanon_labels();
             }
+            if g.rng.chance(1, 6) {
+                let cap = g.target_pop.max(30);
+                g.many_groups_prelude(cap);
+            }
             g.boost_save = 6;
             if g.rng.chance(1, 2) {
                 g.allocator_ops_after = g.rng.range(10, 60);
@@ -149,6 +154,10 @@ fn configure_gen(prop: &str, g: &mut Gen) {
         }
         "C10" => {
             g.boost_clone = 6;
+            if g.rng.chance(1, 6) {
+                let cap = g.target_pop.max(30);
+                g.many_groups_prelude(cap);
+            }
             if g.rng.chance(1, 2) {
                 g.add_noncanon_labels();
             }
@@ -345,7 +354,9 @@ pub fn run_shard(cfg: &ShardCfg, out: &mut ShardOut) {
         }
         if let Some((msg, at)) = &r.violation {
             // confirm: the same ops, replayed from scratch, must refute again
-            let upto = (*at + 1).min(r.ops.len());
+            // a violation found by the end-of-history probes is replayed from the history proper: the
+            // probes run again by themselves
+            let upto = if *at >= r.main_len { r.main_len } else { (*at + 1).min(r.ops.len()) };
             let ops = &r.ops[..upto];
             let again = run_case(prop, &case, Some(ops), &mut scratch, &cfg.work, None);
             if again.violation.is_none() {
